@@ -46,7 +46,16 @@ def gen_body(draw, avail, o, name):
         body.insert(pos, ["failflag", name.replace("/", "_"), draw(st.sampled_from([1, 2, 7, 99]))])
     body.append(["out", draw(st.sampled_from(["stdout", "file"]))])
     if csum:
-        body.append(["stamp"])
+        if draw(st.integers(0, 99)) < o.get("p_stampif", 0):
+            # the same rule builds sometimes with and sometimes without a recorded checksum: it stamps only while a
+            # harness flag exists, or only while one of the sources it depends on does not hold its variant 1
+            srcdeps = [q for stt in body if stt[0] == "dep" for q in stt[2] if q in o.get("_sources", ())]
+            if srcdeps and draw(st.integers(0, 1)):
+                body.append(["stampsrc", srcdeps[0]])
+            else:
+                body.append(["stampif", name.replace("/", "_")])
+        else:
+            body.append(["stamp"])
     return body
 
 
@@ -66,6 +75,7 @@ def projects(draw, o=None):
         sources.append(posixpath.join(d, "s%d" % i))
     watch = [posixpath.join(_pick(draw, dirs), "w%d" % i) for i in range(2)]
     o["watch"] = watch
+    o["_sources"] = list(sources)
     nt = draw(st.integers(o.get("min_targets", 3), o.get("max_targets", 8)))
     targets = []
     dofiles = {}
@@ -152,6 +162,7 @@ def histories(draw, o=None):
     o = dict(o or {})
     proj = draw(projects(o))
     o["watch"] = proj["watch"]
+    o["_sources"] = list(proj["sources"])
     targets = proj["targets"]
     sources = proj["sources"]
     dirs = proj["dirs"]
@@ -162,7 +173,7 @@ def histories(draw, o=None):
     kinds = []
     for k, dflt in (("cmd", 40), ("edit", 16), ("touch", 4), ("rmtarget", 8), ("setdo", 8), ("adddo", 4),
                     ("rmdo", 3), ("mkpath", 5), ("rmpath", 3), ("ext", 4), ("failflag", 6), ("query", 0),
-                    ("mwrite", 0), ("mreplace", 0), ("mremove", 0), ("redo", 8)):
+                    ("mwrite", 0), ("mreplace", 0), ("mremove", 0), ("redo", 8), ("stampflag", 0)):
         kinds += [k] * w.get(k, dflt)
     ops = []
     # locality: with probability p_focus an operation that names a target names one of 1-2 "focus" targets, so that
@@ -184,7 +195,9 @@ def histories(draw, o=None):
             cwd = _pick(draw, dirs) if draw(st.integers(0, 99)) < 30 else ""
             ops.append(["cmd", "redo" if k == "redo" else "ifchange", ts, cwd])
         elif k == "edit":
-            ops.append(["edit", _pick(draw, sources)])
+            # the new content is one of three variants, so that an edit can also REVERT a source to bytes it had
+            # before (the mtime still moves forward)
+            ops.append(["edit", _pick(draw, sources), draw(st.integers(0, o.get("edit_variants", 3) - 1))])
         elif k == "touch":
             ops.append(["touch", _pick(draw, sources)])
         elif k == "rmtarget":
@@ -229,7 +242,10 @@ def histories(draw, o=None):
                     dofiles = rest
                     ops.append(["rmdo", dof])
         elif k == "mkpath":
-            ops.append(["mkpath", _pick(draw, proj["watch"])])
+            if draw(st.integers(0, 99)) < o.get("p_mkdir", 0):
+                ops.append(["mkpath", _pick(draw, proj["watch"]), "dir"])
+            else:
+                ops.append(["mkpath", _pick(draw, proj["watch"])])
         elif k == "rmpath":
             ops.append(["rmpath", _pick(draw, proj["watch"])])
         elif k == "ext":
@@ -239,12 +255,21 @@ def histories(draw, o=None):
             names = sorted({s[1] for spec in dofiles.values() for s in spec["body"] if s[0] == "failflag"})
             if names:
                 ops.append(["failflag", _pick(draw, names), draw(st.integers(0, 1))])
+        elif k == "stampflag":
+            names = sorted({s[1] for spec in dofiles.values() for s in spec["body"] if s[0] == "stampif"})
+            if names:
+                ops.append(["stampflag", _pick(draw, names), draw(st.integers(0, 1))])
         elif k == "query":
             ops.append(["query", draw(st.sampled_from(["ood", "targets", "sources"])),
                         _pick(draw, dirs) if draw(st.integers(0, 99)) < 30 else ""])
         elif k in ("mwrite", "mreplace", "mremove"):
             ops.append([k, pick_target()])
     cfg = {"log": draw(st.integers(0, 1)), "keep_going": 0}
+    if o.get("edit_variants", 3) != 3:
+        cfg["nvariants"] = o["edit_variants"]
+    flags = sorted({s[1] for spec in proj["dofiles"].values() for s in spec["body"] if s[0] == "stampif"})
+    if flags:
+        cfg["stampflags_on"] = [f for f in flags if draw(st.integers(0, 1))]
     if o.get("keep_going"):
         cfg["keep_going"] = draw(st.integers(0, 1))
     proj = dict(proj)
